@@ -4,6 +4,7 @@ last column) x a performance grid around the open best, through the public wrapp
 both call orders); oracle = independent lookup in the JSON tables (linear interpolation between age columns, last column beyond)."""
 import json, os, math
 from vlib import common
+from vlib import orderpass
 from vlib.common import Report, Violation, HarnessError, Acc, pmap, merge
 
 PID = 'C14'
@@ -243,6 +244,13 @@ def run(tier):
     rep.assumptions += ['an age is covered when the bracketing age columns hold positive numbers; ages past the last column are covered when that column is',
                         'lower-case event spellings are used where check_event_code accepts them',
                         'the combined-events table has no open-best column: for it only the factor is compared with the table, the grade must be finite, monotone and spelling independent']
+    W = 'athlib.wma_age_factor', 'athlib.wma_age_grade', 'athlib.wma_world_best', 'athlib.wma_athlon_age_factor', 'athlib.wma_athlon_age_grade'
+    oc = [(W[0], ('m', 50, '100')), (W[0], ('f', 62, 'HJ')), (W[0], ('m', 75.5, 'MAR')), (W[0], ('M', 40, '5K'), dict(year=2015)), (W[0], ('m', 50, '100'), dict(year=2023)),
+          (W[0], ('f', 62, 'hj'), dict(year='2023')), (W[0], ('m', 105, '200')), (W[0], ('f', 35, '60H'), dict(year=2015)), (W[0], ('m', 50, 'XX')),
+          (W[1], ('m', 50, '100', 12.0)), (W[1], ('f', 45, 'LJ', 4.8)), (W[1], ('m', 60, 'HJ', 1.5), dict(year=2015)), (W[1], ('F', 70, '5K', 1500.0)),
+          (W[2], ('m', '100')), (W[2], ('f', 'PV')), (W[2], ('f', 'PV'), dict(year=2015)), (W[2], ('m', 'MAR')),
+          (W[3], ('M', 50, '100')), (W[3], ('F', 60, 'HJ')), (W[3], ('M', 34, '100')), (W[4], ('f', 60, 'HJ', 1.4)), (W[4], ('m', 45, '1500', 280.0))]
+    orderpass.part(rep, oc, 'age-grading call-order pass')
     return rep.finish()
 
 
